@@ -241,6 +241,68 @@ macro_rules! typed_big_check {
         }
     };
 }
+/// an empty typed map loaded by one `put_from_iter` of more than a thousand pairs in which integers repeat: every
+/// integer still addresses exactly one entry (the last pair of an integer wins, as with element-wise puts)
+macro_rules! typed_load_check {
+    ($fname:ident, $open:ident, $int:ty, $kt:ty, $label:expr) => {
+        fn $fname(a: &Args, ctx: &mut Ctx, rng: &mut Rng) -> Result<(), String> {
+            let dir = a.scratch.join(concat!("c10load_", $label));
+            let _ = std::fs::remove_dir_all(&dir);
+            let db = abyssiniandb::open_file(&dir).map_err(|e| e.to_string())?;
+            let mut m = db.$open("ints", Cfg::small(*rng.pick(&[64u64, 1024, 4096])).params()).map_err(|e| e.to_string())?;
+            let mut model: BTreeMap<$int, Vec<u8>> = BTreeMap::new();
+            let n = 1024 + rng.below(1500) as usize;
+            let mut pool: Vec<$int> = Vec::new();
+            let mut items: Vec<($kt, Vec<u8>)> = Vec::with_capacity(n);
+            for j in 0..n {
+                let x: $int = if !pool.is_empty() && rng.chance(1, 5) { pool[rng.below(pool.len() as u64) as usize] } else { crate::kt::int_sample(rng) as $int };
+                pool.push(x);
+                let v = format!("{x}#{j}").into_bytes();
+                items.push((<$kt>::from(&x), v.clone()));
+                model.insert(x, v);
+            }
+            let r = crate::session::guarded(crate::session::STEP_BUDGET_BASE, || m.put_from_iter(items.into_iter()));
+            match r {
+                crate::session::Guard::Ok(Ok(())) => {}
+                crate::session::Guard::Ok(Err(e)) => return Err(format!("{}: put_from_iter into an empty map: Err {e}", $label)),
+                crate::session::Guard::Hang(e) | crate::session::Guard::Panic(e) => return Err(format!("{}: put_from_iter into an empty map: {e}", $label)),
+            }
+            let l = m.len().map_err(|e| e.to_string())?;
+            if l != model.len() as u64 {
+                return Err(format!("{}: {} pairs with {} distinct integers loaded into an empty map by one put_from_iter: len() is {l}: an integer that occurs twice got two entries (or two integers one)", $label, n, model.len()));
+            }
+            for (x, v) in model.iter() {
+                if m.get(x).map_err(|e| e.to_string())?.as_ref() != Some(v) {
+                    return Err(format!("{}: after put_from_iter into an empty map get({x}) does not return the last value given for it", $label));
+                }
+            }
+            let mut seen: BTreeSet<$int> = BTreeSet::new();
+            for (k, _v) in m.iter() {
+                let x: $int = <$int>::from(&k);
+                if !seen.insert(x) {
+                    return Err(format!("{}: after put_from_iter into an empty map iteration yields {x} twice", $label));
+                }
+            }
+            // deleting every integer once empties the map
+            for x in model.keys() {
+                let _ = m.delete(x).map_err(|e| e.to_string())?;
+            }
+            let l = m.len().map_err(|e| e.to_string())?;
+            if l != 0 || m.iter().next().is_some() {
+                return Err(format!("{}: every integer deleted once after a put_from_iter load, yet len() is {l} / iteration still yields entries", $label));
+            }
+            ctx.count("typed_bulk_loads", 1);
+            drop(m);
+            drop(db);
+            let _ = std::fs::remove_dir_all(&dir);
+            Ok(())
+        }
+    };
+}
+typed_load_check!(load_u64, db_map_u64_with_params, u64, DbU64, "DbU64");
+typed_load_check!(load_i64, db_map_i64_with_params, i64, DbI64, "DbI64");
+typed_load_check!(load_vu64, db_map_vu64_with_params, u64, DbVu64, "DbVu64");
+
 typed_big_check!(big_u64, db_map_u64_with_params, u64, "DbU64");
 typed_big_check!(big_i64, db_map_i64_with_params, i64, "DbI64");
 typed_big_check!(big_vu64, db_map_vu64_with_params, u64, "DbVu64");
@@ -369,6 +431,12 @@ pub fn run(a: &Args) -> Ctx {
         }
     }
     for (nm, r) in [("u64", big_u64(a, &mut ctx, &mut rng)), ("i64", big_i64(a, &mut ctx, &mut rng)), ("vu64", big_vu64(a, &mut ctx, &mut rng))] {
+        if let Err(m) = r {
+            fail(&mut ctx, format!("[{nm}] {m}"));
+            return ctx;
+        }
+    }
+    for (nm, r) in [("u64", load_u64(a, &mut ctx, &mut rng)), ("i64", load_i64(a, &mut ctx, &mut rng)), ("vu64", load_vu64(a, &mut ctx, &mut rng))] {
         if let Err(m) = r {
             fail(&mut ctx, format!("[{nm}] {m}"));
             return ctx;
